@@ -2,5 +2,6 @@ SPECIFICATION Spec
 CONSTANTS
   MaxLen = 2
   MaxTape = 4
+  SeedExtra = 2
 INVARIANT AcceptedIsSafe
 CHECK_DEADLOCK FALSE
